@@ -22,6 +22,8 @@ def lacon_query(pid, n, prec='d', script=None, free_from=None, timeout=300):
     # copy A: the function statics become harness-owned globals (same lifetime): -Dstatic=extern + renames
     a_flags = ['-D%s=dlacon_A' % fn, '-Dstatic=extern'] + ['-D%s=vhA_%s' % (v, v) for v in LACON_STATICS]
     defs = {'N': n}
+    if prec == 's':
+        defs['VH_SINGLE'] = None
     tag = ''
     if script:
         defs['SCRIPT'] = script
@@ -31,6 +33,7 @@ def lacon_query(pid, n, prec='d', script=None, free_from=None, timeout=300):
             tag += '.f%d' % free_from
     q = Query('%s.lacon.%s.n%d%s' % (pid, prec, n, tag), 'lacon_h.c', [(f, a_flags), (f, ['-D%s=dlacon_B' % fn])] + blas, defs=defs, engine=('sat' if script and free_from is None else 'smt'), mode='real',
               unwind=16, timeout=timeout, group='norm estimator: a new estimate does not depend on the leftover static loop state (self-composition)')
+    q.nosplit = True     # a timeout is reported as such (exit 2) instead of retrying ~100 assertion instances one by one
     return q
 
 def plan(tier, seed):
@@ -59,17 +62,20 @@ def plan(tier, seed):
         qs.append(lacon_query('C18', 2, script=sc))                   # every reply of the caller pinned (three scripts through the main loop)
         for ff in ((2, 4, 6) if sc == 2 else (2,)):
             qs.append(lacon_query('C18', 2, script=sc, free_from=ff))   # scripted prefix, every later reply arbitrary
+    for sc in (1, 2, 3):
+        qs.append(lacon_query('C18', 2, prec='s', script=sc))        # slacon_: the three fully scripted runs, bit-precise
     qs.append(lacon_query('C18', 1))                                  # n = 1: every reply arbitrary
     return qs
 
 META = {
     'level': 'model_checking',
-    'engines': 'E2 (Real): the whole-driver queries of C01 / C08 started from ARBITRARY values of the library\'s persistent static state (goto-instrument --nondet-static-matching)',
+    'engines': 'E2 (Real) + E1 for the scripted norm-estimator queries: the whole-driver queries of C01 / C08 started from ARBITRARY values of the library\'s persistent static state (goto-instrument --nondet-static-matching)',
     'bounds': {'state made arbitrary': 'no_expand, ndim, whichspace, tail_users (p?memory.c) and every field of the static GlobalLU_t in p?gstrf_thread_init (all sizes, counters and array pointers left by any earlier call)',
+               'norm estimator': 'real dlacon_ compiled twice; the seven function statics (iter, jump, jlast, i, j, altsgn, estold) of one copy are harness-owned (-Dstatic=extern + renames: same lifetime and uses) and start ARBITRARY, the other copy starts from zeros; same replies to both; every request, vector, estimate compared. n=2: three reply scripts (one extra round then repeated sign vector / growth in every round up to ITMAX / cycling test) fully pinned = bit-precise SAT, and with all replies after the 2nd (4th, 6th) arbitrary = Real; n=1: all replies arbitrary',
                'probe calls': 'simple driver on every pattern/pivot order n<=2 and 50 sampled (thorough: all) at n=3; the factor / re-factor / reuse sequence at n=2',
                'claim': 'the same functional assertions as C01/C02/C09 hold whatever the earlier history left behind, i.e. the result depends only on the call\'s own arguments'},
     'outside': ['the expander table pointer dexpanders (a dangling non-null value is not producible by any call: it is freed and zeroed in thread_finalize)',
-                'statics of dlamch.c / ?lacon.c: the self-composition query for dlacon_ (harness/lacon_h.c) is unsat on the unchanged tree but its vacuity witness is not decided within the cap, so it is not registered and nothing is claimed', 'the byte-level allocator state `stack` beyond its re-initialisation by p?gstrf_SetupSpace (C14 treats every state of it)',
+                'dlacon_ with every reply of the caller arbitrary at n=2 (decided only along three scripted prefixes; the fully free query proves unsat in ~120 s but its vacuity witness is not decided by any solver, so it is not run)', 'slacon_ beyond the three fully scripted runs; statics of clacon_/zlacon_ (same structure as dlacon_) and of dlamch.c (the harnesses replace ?lamch_ by exact constants)', 'the byte-level allocator state `stack` beyond its re-initialisation by p?gstrf_SetupSpace (C14 treats every state of it)',
                 'bit-identical results (decided up to exact arithmetic, not rounding)'],
     'assumptions': ['as C01 (typed allocator stubs: the real MemInit\'s own re-initialisation of no_expand/ndim is therefore not exercised, its effect is irrelevant to the stubs)'],
     'trusted_base': ['cbmc 6.11', 'goto-instrument 6.11', 'tools/fp2alg.py', 'z3'],
